@@ -296,13 +296,16 @@ def check_costs(circuit: Any, feature: str, seed: int, tspecs: list,
                                   f'get_grad raised {e!r} ({tname})')
                             break
                         if gname == 'cost':
-                            numbers[(ename, gname, xi, 'g')] = g
+                            if kind == 's' or ov >= 1e-2:
+                                # (|overlap| ~ 0: the cost is not
+                                # differentiable, nothing to compare)
+                                numbers[(ename, gname, xi, 'g')] = g
                             c2, g2 = float(cg[0]), np.asarray(cg[1])
                             if abs(c2 - c) > ZERO or not _same(g2, g, ZERO):
                                 f.add(f'get_cost_and_grad-ne-parts:{tag}',
                                       f'{tname}: get_cost_and_grad differs '
                                       'from (get_cost, get_grad)')
-                            if kind == 's' or ov >= 1e-3:
+                            if kind == 's' or ov >= 1e-2:
                                 want_g = np.array([
                                     (ref_values(kind, data, up)[0]
                                      - ref_values(kind, data, dn)[0])
